@@ -231,3 +231,31 @@ MC_Empty == {}
         return res, acc
     finally:
         shutil.rmtree(d, ignore_errors=True)
+
+
+def validate_purge_traces(traces, cmd, selected, crossvol, workers=4, timeout=900):
+    """traces: list of observed-state sequences [{info, pay, dest}, ...] of ONE scenario -> (TlcResult, accepted ids)"""
+    import json, os, re, shutil, tempfile
+    mod = '''---- MODULE MC_PurgeOpsTrace ----
+EXTENDS PurgeOpsTrace
+MC_Entries == {"e1", "e2", "e3", "e4"}
+MC_Trees == {"e2", "o2"}
+MC_Orphans == {"o1", "o2"}
+MC_Selected == %s
+MC_CrossVol == %s
+====
+''' % (tla_set(map(tla_str, selected)), tla_set(map(tla_str, crossvol)))
+    cfg = ('INIT InitT\nNEXT NextT\nCONSTANTS Entries <- MC_Entries Trees <- MC_Trees Orphans <- MC_Orphans Selected <- MC_Selected '
+           'CrossVol <- MC_CrossVol\nCONSTANTS Cmd = "%s" Mutant = "none"\n'
+           'INVARIANT ReportAccept\nINVARIANT InfoLast\nINVARIANT RestoreNeverLoses\nINVARIANT FrameOK\nCHECK_DEADLOCK FALSE\n' % cmd)
+    d = tempfile.mkdtemp(prefix='vpu-', dir='/dev/shm' if os.path.isdir('/dev/shm') else None)
+    try:
+        p = os.path.join(d, 'traces.json')
+        with open(p, 'w') as f:
+            json.dump(traces, f)
+        res = tlc.run_tlc('MC_PurgeOpsTrace', cfg_text=cfg, workers=workers, timeout=timeout, env={'TRACE_FILE': p},
+                          extra_files={'MC_PurgeOpsTrace.tla': mod})
+        acc = set(int(m.group(1)) for m in re.finditer(r'<<"##ACCEPT", (\d+)>>', res.raw))
+        return res, acc
+    finally:
+        shutil.rmtree(d, ignore_errors=True)
